@@ -25,7 +25,9 @@ func c15(x *Ctx) {
 	// mode constants
 	modeVal := map[string]int64{}
 	for _, n := range []string{"Never", "Monitor", "Always"} {
-		if k, ok := x.P.ByRel["collect"].Types.Scope().Lookup(n).(interface{ Val() interface{ String() string } }); ok {
+		if k, ok := x.P.ByRel["collect"].Types.Scope().Lookup(n).(interface {
+			Val() interface{ String() string }
+		}); ok {
 			_ = k
 		}
 	}
@@ -147,7 +149,7 @@ func c15(x *Ctx) {
 			if !reach(with(nil, nil), s.st) {
 				continue
 			}
-			okLevel := !reach(with([]eng.RelFact{rel(deactF, eng.GT | eng.EQ)}, nil), s.st)
+			okLevel := !reach(with([]eng.RelFact{rel(deactF, eng.GT|eng.EQ)}, nil), s.st)
 			okTime := !reach(with(nil, func(v ssa.Value) eng.Tri {
 				if tc, ok := eng.NormTimeCmp(v); ok {
 					// now AFTER stayOnUntil must hold: assume the opposite
